@@ -13,6 +13,66 @@ RULE = ("structured generator (all field shapes of the quantifier text: flags, c
 LIB = "ERR Lib:"
 
 
+BAD_EDDSA = bytes.fromhex("a301634f4b500327206745643235353139")
+
+
+def reference_mismatch(b, il):
+    import io
+    t = il.split()
+    try:
+        rp, fl, cnt = fw.rd_b(t[1]), fw.rd_i(t[2]), fw.rd_i(t[3])
+        i = 4
+        att = None
+        if t[i] == "Y":
+            att = (fw.rd_b(t[i + 1]), fw.rd_b(t[i + 2]), fw.rd_b(t[i + 3]))
+            i += 4
+        else:
+            i += 1
+        ext = fw.rd_b(t[i + 1]) if t[i] == "Y" else None
+    except Exception:
+        return None
+    if rp != b[:32]:
+        return "rp-id-hash: not bytes 0-31"
+    if cnt != int.from_bytes(b[33:37], "big"):
+        return "counter: not the big-endian value of bytes 33-36"
+    if (fl & 0xDD) != (b[32] & 0xDD):
+        return "flags: not byte 32"
+    if (att is not None) != bool(b[32] & 0x40) or (ext is not None) != bool(b[32] & 0x80):
+        return "presence: attested data / extensions do not follow the AT / ED bits"
+    p = 37
+    def item(buf):
+        d = cbor2.CBORDecoder(io.BytesIO(buf))
+        v = d.decode()
+        return v, d.fp.tell()
+    def same(v, enc):
+        try:
+            return cbor2.dumps(cbor2.loads(enc)) == cbor2.dumps(v)
+        except Exception:
+            return True          # (values cbor2 cannot re-encode: no verdict)
+    try:
+        if att is not None:
+            L = int.from_bytes(b[53:55], "big")
+            if att[0] != b[37:53]:
+                return "aaguid: not bytes 37-52"
+            if att[1] != b[55:55 + L]:
+                return "credential-id: not the announced number of bytes after the length"
+            p = 55 + L
+            buf = b[p:]
+            if buf[:17] == BAD_EDDSA:
+                buf = b"\xa4" + buf[1:]          # the documented repair of the known-malformed EdDSA key header
+            v, n = item(buf)
+            if not same(v, att[2]):
+                return "credential-public-key: not the CBOR item that follows the credential id"
+            p += n
+        if ext is not None:
+            v, n = item(b[p:])
+            if not same(v, ext):
+                return "extensions: not the CBOR item that follows"
+    except Exception:
+        return None              # (the reference cannot read it: no verdict)
+    return None
+
+
 def run(tier, seed):
     chk = fw.Check("C11", tier, seed)
     br, ob = fw.standard_prelude(chk, with_coqchk=(tier == "thorough"))
@@ -34,6 +94,12 @@ def run(tier, seed):
                                      impl.opt(lambda a: fw.wb(a[0]) + " " + fw.wb(a[1]) + " " + fw.wb(a[2]), e["att"]), impl.opt(fw.wb, e["ext"])])
             if il != want:
                 chk.violation("laid-out authenticator data not parsed to exactly its fields", "authdata-unfaithful", dict(rp, expected=want))
+        if il.startswith("OK") and "unprintable" not in il:
+            # an independent reading of the same bytes (offsets by hand, the CBOR items by cbor2's streaming decoder): whatever the model covers or not, the fields of an
+            # accepted parse are the bytes at their offsets, and the key / extension items are the items that stand there
+            why = reference_mismatch(b, il)
+            if why:
+                chk.violation(f"accepted authenticator data: {why}", f"authdata-reference {kind} {why.split(':')[0]}", rp)
         if R:
             ml = impl.model_flags_mask(R.call("authdata " + fw.wb(b)))
             rp["model"] = ml
